@@ -460,7 +460,10 @@ Definition step (s : st) (l : lab) : option st :=
               match batch s with
               | [] => Some (set_wae s1 true)
               | _ => if maxw s <? clock s - bstart s
-                     then Some (set_bpc (set_stale s1 (stale s || tc s)) (BFlush FCWait))
+                     then match stop_timer s1 with            (* stopTimer(); flush() *)
+                          | Some s2 => Some (set_bpc s2 (BFlush FCWait))
+                          | None => Some (set_bpc s1 BStuck)
+                          end
                      else Some (start_timer s1)
               end
           | _ => None
@@ -531,6 +534,31 @@ Definition step (s : st) (l : lab) : option st :=
       | _, _ => None
       end
   | LRetClose => match kpc_ s with KRet => Some (set_kpc s KDone) | _ => None end
+  end.
+
+(* ---- the code BEFORE the fix "stop the batch timer when a waiter takes an overdue batch" ----
+   Only the branch  time.Since(batchStart) > maxWait  of the `case <-out.waiting` arm differs: it
+   called flush() without stopTimer(), so a timer started for this batch by an earlier waiter
+   stayed live ([stale] records that).  Used only by C11_old_code_refuted. *)
+Definition step_prefix (s : st) (l : lab) : option st :=
+  match l with
+  | TRecvWaiting k =>
+      match bpc_ s, getc s k with
+      | BLoop, Some x =>
+          match c_pc x with
+          | CSel =>
+              let s1 := set_ann (setc s k CInner) true in
+              match batch s with
+              | [] => Some (set_wae s1 true)
+              | _ => if maxw s <? clock s - bstart s
+                     then Some (set_bpc (set_stale s1 (stale s || tc s)) (BFlush FCWait))
+                     else Some (start_timer s1)
+              end
+          | _ => None
+          end
+      | _, _ => None
+      end
+  | _ => step s l
   end.
 
 (* ---- label enumeration ---- *)
